@@ -11,6 +11,7 @@
 //             | C skip hand inplace H(m×n) R(m×m) [trans 0: A(n×n) b(n) c] y(m) valid <lik>
 //     <lik>   = 0 l(k) | 1 c(k) a(n) | 2 scale fail(0..4: which call of the measurement model fails)          (2 = the shipped GaussianLikelihood)
 //     hand    = 0 | 1 move-construct the GPF object first | 2 move-assign it over a differently configured one
+//   After the steps: [R k' <set> nsteps <step>*]* — further segments with another number of particles, same objects.
 //   All models may change from step to step (same sizes): the model objects read them from a script.
 //
 // One GPFPrediction and one GPFCorrection object live through the whole history (so the random
@@ -223,6 +224,7 @@ static std::string gpfh(Toks& t) {
         o.m(w->getStateTransitionMatrix()); o.m(w->getNoiseCovarianceMatrix());
     }
 
+    for (;;) {
     for (long s = 0; s < nsteps; ++s) {
         std::string kind = t.tok();
         bool skip = t.flag();
@@ -330,6 +332,16 @@ static std::string gpfh(Toks& t) {
             o.s(valid ? "glik" : "gnolik"); o.n(valid ? lik.size() : 0); if (valid) o.m(lik);
         } else throw vh::BadArgs("step");
         cur = out;
+    }
+    // a further segment: the same objects (and random stream) go on with a particle set of another size
+    if (t.empty()) break;
+    if (t.tok() != "R") throw vh::BadArgs("segment");
+    k = t.nat();
+    cur = ParticleSet(k, n);
+    readSet(t, cur, n, k);
+    nsteps = t.nat();
+    decoy->lik_c = VectorXd::Constant(k, 7.0);
+    o.s("R");
     }
     t.done();
     return o.str();
